@@ -84,8 +84,10 @@ func schemaEnums(dir string, mods []string) (map[string][]string, error) {
 	return out, nil
 }
 
+// stripMod removes a module-name prefix ("vf-ids:SQUARE"); a colon that belongs to the name itself
+// (the enumeration member "1:N") is kept.
 func stripMod(s string) string {
-	if i := strings.Index(s, ":"); i >= 0 {
+	if i := strings.Index(s, ":"); i >= 0 && strings.HasPrefix(s, "vf-") {
 		return s[i+1:]
 	}
 	return s
